@@ -119,6 +119,174 @@ struct T3
     auto tie() const { return std::tie(tag, v); }
 };
 
+// ---- user types whose serialize_reflect() is conditional: decoding does not assign every member
+struct NOpt // presence flag + optional block
+{
+    int16_t id = 0;
+    uint8_t has = 0;
+    int32_t x = 0;
+    vec<uint8_t> s;
+    template <class Self, class Ar> static void sr(Self &self, Ar &ar)
+    {
+        ar &self.id;
+        ar &self.has;
+        if (self.has)
+        {
+            ar &self.x;
+            ar &self.s;
+        }
+    }
+    template <class Ar> void serialize_reflect(Ar &ar) { sr(*this, ar); }
+    template <class Ar> void serialize_reflect(Ar &ar) const { sr(*this, ar); }
+    auto tie() { return std::tie(id, has, x, s); }
+    auto tie() const { return std::tie(id, has, x, s); }
+    static constexpr bool c09_custom = true;
+    static constexpr size_t c09_min_cost = 3;
+    static NOpt c09_gen(Gen &g)
+    {
+        NOpt o;
+        o.id = gen<int16_t>(g);
+        bool with = g.r.chance(1, 3) ? g.r.chance(1, 2) : (g.alt++ & 1) == 0;
+        g.budget -= 1;
+        o.has = with ? (uint8_t)(1 + g.r.below(255)) : 0;
+        if (with)
+        {
+            o.x = gen<int32_t>(g) | 1;
+            o.s = gen<vec<uint8_t>>(g);
+            if (o.s.empty())
+                o.s.push_back(7);
+        }
+        return o;
+    }
+    void c09_ref(std::string &out) const
+    {
+        ref_enc(id, out);
+        ref_enc(has, out);
+        if (has)
+        {
+            ref_enc(x, out);
+            ref_enc(s, out);
+        }
+    }
+};
+struct NVar // tag + one of several members
+{
+    uint8_t tag = 0;
+    int16_t i = 0;
+    vec<int16_t> w;
+    vec<uint8_t> v;
+    template <class Self, class Ar> static void sr(Self &self, Ar &ar)
+    {
+        ar &self.tag;
+        if (self.tag == 0)
+            ar &self.i;
+        else if (self.tag == 1)
+            ar &self.w;
+        else
+            ar &self.v;
+    }
+    template <class Ar> void serialize_reflect(Ar &ar) { sr(*this, ar); }
+    template <class Ar> void serialize_reflect(Ar &ar) const { sr(*this, ar); }
+    auto tie() { return std::tie(tag, i, w, v); }
+    auto tie() const { return std::tie(tag, i, w, v); }
+    static constexpr bool c09_custom = true;
+    static constexpr size_t c09_min_cost = 3;
+    static NVar c09_gen(Gen &g)
+    {
+        NVar a;
+        g.budget -= 1;
+        a.tag = (uint8_t)(g.r.chance(1, 2) ? g.alt++ % 3 : g.r.below(3));
+        if (a.tag == 0)
+            a.i = (int16_t)(gen<int16_t>(g) | 1);
+        else if (a.tag == 1)
+        {
+            a.w = gen<vec<int16_t>>(g);
+            if (a.w.empty())
+                a.w.push_back(-3);
+        }
+        else
+        {
+            a.v = gen<vec<uint8_t>>(g);
+            if (a.v.empty())
+                a.v.push_back(9);
+        }
+        return a;
+    }
+    void c09_ref(std::string &out) const
+    {
+        ref_enc(tag, out);
+        if (tag == 0)
+            ref_enc(i, out);
+        else if (tag == 1)
+            ref_enc(w, out);
+        else
+            ref_enc(v, out);
+    }
+};
+struct NCnt // count + that many members
+{
+    int16_t id = 0;
+    uint8_t n = 0;
+    int32_t m0 = 0, m1 = 0, m2 = 0;
+    template <class Self, class Ar> static void sr(Self &self, Ar &ar)
+    {
+        ar &self.id;
+        ar &self.n;
+        if (self.n > 0)
+            ar &self.m0;
+        if (self.n > 1)
+            ar &self.m1;
+        if (self.n > 2)
+            ar &self.m2;
+    }
+    template <class Ar> void serialize_reflect(Ar &ar) { sr(*this, ar); }
+    template <class Ar> void serialize_reflect(Ar &ar) const { sr(*this, ar); }
+    auto tie() { return std::tie(id, n, m0, m1, m2); }
+    auto tie() const { return std::tie(id, n, m0, m1, m2); }
+    static constexpr bool c09_custom = true;
+    static constexpr size_t c09_min_cost = 3;
+    static NCnt c09_gen(Gen &g)
+    {
+        NCnt c;
+        c.id = gen<int16_t>(g);
+        g.budget -= 1;
+        c.n = (uint8_t)(g.r.chance(1, 2) ? 3 - g.alt++ % 4 : g.r.below(4));
+        int32_t *m[3] = {&c.m0, &c.m1, &c.m2};
+        for (int k = 0; k < c.n; k++)
+            *m[k] = gen<int32_t>(g) | 1;
+        return c;
+    }
+    void c09_ref(std::string &out) const
+    {
+        ref_enc(id, out);
+        ref_enc(n, out);
+        if (n > 0)
+            ref_enc(m0, out);
+        if (n > 1)
+            ref_enc(m1, out);
+        if (n > 2)
+            ref_enc(m2, out);
+    }
+};
+struct NE // conditional types as members and in a vector member
+{
+    NOpt o;
+    vec<NCnt> cs;
+    NVar v;
+    vec<NOpt> os;
+    template <class Self, class Ar> static void sr(Self &self, Ar &ar)
+    {
+        ar &self.o;
+        ar &self.cs;
+        ar &self.v;
+        ar &self.os;
+    }
+    template <class Ar> void serialize_reflect(Ar &ar) { sr(*this, ar); }
+    template <class Ar> void serialize_reflect(Ar &ar) const { sr(*this, ar); }
+    auto tie() { return std::tie(o, cs, v, os); }
+    auto tie() const { return std::tie(o, cs, v, os); }
+};
+
 // ---------------------------------------------------------------- (4) truncation through the bounded reader
 template <class T> static void check_truncations(const char *tname, const T &v, vf::Rng &r, int placement)
 {
